@@ -91,18 +91,16 @@ def exported_module(L, with_tables=True):
 # ---------------------------------------------------------------------------------------------
 # batch trace validation
 # ---------------------------------------------------------------------------------------------
-VERDICT_RE = re.compile(r'^<<"V", (\d+), (\{.*?\})(?:, (.*))?>>$')
-
-
 def parse_verdicts(res, n_expected, what):
     verdicts = {}
     for l in res.lines:
-        m = VERDICT_RE.match(l)
-        if m:
-            tid = int(m.group(1))
-            clauses = set(re.findall(r'"([^"]+)"', m.group(2)))
-            extra = m.group(3)
-            verdicts[tid] = (clauses, extra)
+        if l.startswith('"{\\"v\\":'):
+            try:
+                d = json.loads(json.loads(l))
+            except Exception as e:
+                raise MachineryError(f"{what}: unparsable verdict line {l[:200]!r}: {e}")
+            x = d.get("x") or []
+            verdicts[int(d["v"])] = (set(d["c"]), ", ".join(str(i) for i in x) if x else None)
     if len(verdicts) != n_expected:
         errs = [i for i, l in enumerate(res.lines) if l.startswith("Error:")]
         tail = "\n".join(res.lines[errs[0]:errs[0] + 12] if errs else res.lines[-30:])
@@ -251,7 +249,7 @@ class Check:
             d = os.path.join(REPLAY_DIR, self.prop)
             os.makedirs(d, exist_ok=True)
             shown = 0
-            for i, (key, desc, payload) in enumerate(self.violations[:50]):
+            for i, (key, desc, payload) in enumerate(self.violations[:(100000 if os.environ.get('VERIF_ALL_REPLAYS') else 50)]):
                 path = os.path.join(d, f"{self.tier}-{i}.json")
                 with open(path, "w") as fh:
                     json.dump({"property": self.prop, "key": key, "what": desc, "payload": payload}, fh, indent=1, default=str)
